@@ -56,6 +56,7 @@ unsigned g_kfault_pct = 0;
 std::map<std::string, uint64_t> g_kfaults_fired;
 const int FAKE_FD_URANDOM = 1000, FAKE_FD_RANDOM = 1001;
 int g_open_fds = 0;
+int g_urandom_state = 0; // 0 present, 1 missing (ENOENT), 2 present but not a character device: the library must fall back to /dev/random
 bool g_fd_open[2] = {false, false}; // simulated descriptor table: a closed descriptor is EBADF, as in a real kernel
 
 void kernel_serve(void *buf, size_t n) {
@@ -93,6 +94,7 @@ int h_getentropy(void *buf, size_t n) {
 int h_open(const char *path, int flags, mode_t) {
     bool ur = strcmp(path, "/dev/urandom") == 0, rd = strcmp(path, "/dev/random") == 0;
     if (!ur && !rd) { errno = ENOENT; return -1; }
+    if (ur && g_kernel_mode && g_urandom_state == 1) { errno = ENOENT; return -1; }
     if (!g_kernel_mode) AMB.hit("open_dev_random");
     else if (g_kfault_pct && g_kfault.below(100) < g_kfault_pct) { g_kfaults_fired["open_eintr"]++; errno = EINTR; return -1; }
     g_open_fds++;
@@ -133,7 +135,7 @@ int h_close(int fd) {
 int h_fstat(int fd, struct stat *st) {
     if ((fd != FAKE_FD_URANDOM && fd != FAKE_FD_RANDOM) || !g_fd_open[fd - FAKE_FD_URANDOM]) { errno = EBADF; return -1; }
     memset(st, 0, sizeof *st);
-    st->st_mode = S_IFCHR | 0666;
+    st->st_mode = (fd == FAKE_FD_URANDOM && g_kernel_mode && g_urandom_state == 2) ? (S_IFREG | 0644) : (S_IFCHR | 0666);
     return 0;
 }
 int h_fcntl(int, int, long) { return 0; }
@@ -596,6 +598,7 @@ struct Exec {
         res.nontrivial = any_adversarial || faults_fired;
         res.count(std::string("knob.cpu_disable=") + cpu_mask_name((unsigned) plan.pk.at("cpu_disable").u64()));
         res.count("knob.source=" + plan.pk.at("source").str());
+        if (plan.pk.at("source").str().find("devurandom") != std::string::npos) res.count("knob.dev_urandom=" + std::string(plan.pk.at("urandom").u64() == 0 ? "present" : plan.pk.at("urandom").u64() == 1 ? "missing" : "not-a-device"));
         return res;
     }
 };
@@ -627,6 +630,7 @@ struct C18 {
         unsigned c = (unsigned) r.below(10);
         unsigned c2 = (unsigned) r.below(100);
         (void) c;
+        pk["urandom"] = (unsigned) (r.below(3) == 0 ? r.range(1, 2) : 0); // only matters for the *_devurandom sources
         pk["source"] = c2 < 50 ? "scripted" : c2 < 68 ? "kernel_getrandom" : c2 < 82 ? "kernel_devurandom" : c2 < 92 ? "internal_getentropy" : "internal_devurandom";
         return pk;
     }
@@ -639,6 +643,7 @@ struct C18 {
         g_getrandom_enosys = src == "kernel_devurandom" || src == "internal_devurandom";
         g_internal = src.compare(0, 8, "internal") == 0;
         g_getentropy_enosys = src == "internal_devurandom";
+        g_urandom_state = (int) pk.at("urandom").u64();
         simos_hooks.getrandom_ = h_getrandom; simos_hooks.getentropy_ = h_getentropy; simos_hooks.open_ = h_open; simos_hooks.read_ = h_read;
         simos_hooks.close_ = h_close; simos_hooks.fstat_ = h_fstat; simos_hooks.fcntl_ = h_fcntl; simos_hooks.poll_ = h_poll;
         simos_hooks.gettimeofday_ = h_gettimeofday; simos_hooks.getpid_ = h_getpid; simos_hooks.time_ = h_time; simos_hooks.clock_gettime_ = h_clock_gettime;
